@@ -8,10 +8,65 @@ from harness import common as C
 
 THEOREMS = 'Properties/C12.v'
 CLAIM = dict(
-    text='WORK IN PROGRESS',
-    note='',
-    technique='Coq proof + model/implementation correspondence')
-TRUSTED = ['Coq 8.16.1 kernel + vm_compute (case evaluation only)']
+    text=(
+        'Coq theorems about the models Model/Func.v (func_basis, func_get, func_gets, func_int, func_int_general, func_sum, '
+        'func_diff_matrix) and Model/FuncFull.v (the four dense routines); all unbounded in d, mode sizes n_k and TT-ranks '
+        'unless said otherwise. '
+        'FULL, at the reals (cos/sin oracles are cos(pi m/N), sin(pi m/N)): '
+        '[C12_dct_orthogonal] DCT-I orthogonality for every N>=1 (sum with halved ends of cos(pi j a/N) cos(pi j b/N) is '
+        '0 / N/2 / N), by product-to-sum and a telescoping sine sum; [C12_dst_orthogonal] the DST-I analogue. '
+        '[C12_interp_exact] (TT) for every box a_k<b_k (symmetric or not), every n_k>=2, every coefficient tensor c (any '
+        'TT-rank), if Y holds the values of p = sum_m c_m prod_k T_{m_k} (degree < n_k in x_k) on the Chebyshev grid of the box, '
+        'then func_int succeeds and returns exactly c; func_get returns p(x) at every point of the box (any tolerance >= 0 in '
+        'the skip test); func_gets returns the values of p on ANY new grid; func_gets on the same grid returns Y. '
+        '[C12_interp_exact_full] the same for func_int_full / func_get_full / func_gets_full, any d>=1. '
+        '[C12_interp_exact_hyp_sat, C12_interp_exact_nonvacuous] the hypotheses hold for the samples of every coefficient '
+        'TT-tensor. [C12_exactness_class, C12_poly_cheb_span] every sum of products of one-variable polynomials of degree '
+        '< n_k (monomial coefficients) is of the form sum_m c_m prod_k T_{m_k}, so the class covered is the whole exactness '
+        'class of the property. [C12_resample_inverse_cheb] func_gets(func_int(Y)) on the same grid is Y for ARBITRARY data; '
+        '[C12_resample_inverse_sin] the same for the sine kind (transform / re-sampling pair only). '
+        '[C12_int_linear] the coefficient transform is linear. '
+        '[C12_tt_eq_dense_get (any ring), _int, _gets, _sum] the TT and the dense routines agree on full(Y). '
+        '[C12_in_box_not_skipped, C12_fill_value, C12_fill_value_R, C12_fill_value_full(_R)] points of the box are evaluated, '
+        'points that leave it by more than the tolerance in one coordinate get z. '
+        '[C12_sum_full_rejects] an asymmetric box makes func_sum_full return ValueError, [C12_sum_full_accepts_symmetric] '
+        'every symmetric box is accepted; [C12_func_int_needs_two] n_k<2 is an error (scipy DCT-I). '
+        '[C12_func_sum_spec] func_sum = prod (b_k-a_k)/2 * sum_m A[m] prod_k w_{m_k} (any ring, also the sine weights); '
+        '[C12_cheb_weights, C12_cheb_weights_value] for EVERY k the weight w_k = 2/(1-k^2) (k even), 0 (k odd) equals '
+        'P(1)-P(-1) for an antiderivative P of T_k on R (1-D Newton integral; via T_k\' = k U_{k-1}). '
+        'FULL, any commutative ring: [C12_basis_cheb] the recurrence computes T_k ([C12_basis_cheb_cos] T_k(cos t) = cos kt at R); '
+        '[C12_modewise_linear] a matrix applied to the mode axis of every core acts mode-wise on the tensor; '
+        '[C12_func_get_poly, C12_func_gets_poly] func_get / func_gets evaluate sum_m A[m] prod_k T_{m_k}; '
+        '[C12_func_get_custom_spec] with custom basis functions func_get evaluates sum_m A[m] prod_k h_{k,m_k}(x_k). '
+        'GIVEN THE ORACLE CONTRACT of scipy.linalg.lstsq at the call (consistent system => right shape, zero residual): '
+        '[C12_general_core_reproduces, C12_general_core_exact, C12_int_general_exact] func_int_general reproduces data in the '
+        'span of the basis and, with full column rank, returns the coefficients (non-vacuity: C12_general_hyp_sat, '
+        'C12_general_nonvacuous). '
+        'PARTIAL: [C12_sum_exact_1d_partial, C12_sum_full_exact_1d_partial] in ONE variable func_sum (any box) and '
+        'func_sum_full (symmetric box) equal F(b)-F(a) for an antiderivative F of the interpolated polynomial; for d>1 only the '
+        'algebraic formula and the 1-D weights are proved. [C12_diff_matrix_exact_partial] func_diff_matrix gives exact derivatives (orders 1..3) of every polynomial of '
+        'degree < n at the nodes for every box ONLY for n in {2,3,4} (exact rational nodes, Qc; closed computation lifted by '
+        'linearity; [C12_diff_matrix_scaling] box scaling for all n); general n is validated numerically only. '
+        'NOT PROVED (numerical validation by the search on every thorough run / on failure): for d>1 that the '
+        'multi-dimensional integral of p equals the func_sum formula (Fubini on top of C12_func_sum_spec and C12_cheb_weights); '
+        'func_diff_matrix for n>4; '
+        'floating-point rounding ("up to rounding" in the property).'),
+    note=('The model is tied to /repo on every run: exact-node Qc stream (n_k in {2,3,4}, all eight routines + diff '
+          'matrices + error classes), float stream with recorded numpy cos/sin tables (n_k <= 12, both kinds), '
+          'func_int_general with the lstsq outputs replayed bit for bit and the lstsq contract validated on every recorded '
+          'call.  The search (independent of the model) checks every clause of the property against '
+          'numpy.polynomial.chebyshev and Fraction integrals.'),
+    technique='Coq proof (ring-generic multilinear algebra + real trigonometry) + model/implementation correspondence')
+TRUSTED = ['Coq 8.16.1 kernel + vm_compute (case evaluation; closed Qc computation in C12_diff_matrix_exact_partial)',
+           'hand-written models Model/Func.v, Model/FuncFull.v tied to func.py / func_full.py by the correspondence streams',
+           'scipy.fftpack dct/dst type 1 and numpy fft of the even extension modelled by their defining cosine / sine sums',
+           'numpy swapaxes/reshape(order=F) bookkeeping of func_int_full, einsum/tensordot contractions, grid.poi_scale / '
+           'ind_to_poi(kind=cheb) modelled by their net effect (validated by the correspondence)',
+           'oracle contract of scipy.linalg.lstsq (zero residual on consistent systems; validated on every recorded call)',
+           'Coq Reals axioms (ClassicalDedekindReals, functional extensionality) for the statements at R',
+           'IEEE rounding is not modelled in the theorems (float instance is executed only, agreement 1e-9 relative)']
+ASSUMPTIONS = ['at R the trigonometric oracles are cs N m = cos(pi m/N), sn N m = sin(pi m/N)',
+               'lstsq_ok k H M for the calls made (func_int_general only)']
 TIME_LIMIT = {'quick': 900, 'thorough': 5400}
 
 # ---------------------------------------------------------------------------------------------
@@ -469,10 +524,16 @@ def corr_general(R, tn, rng, th, header):
             rec.append((Hc, Mc, np.array(out[0], dtype=float)))
             return out
         scipy.linalg.lstsq = wrapped
+        Y0 = [G.copy() for G in Y]
         try:
             impl = impl_flat(lambda: tn.func_int_general(Y, np.array(Xp), basis), 'tt')
         finally:
             scipy.linalg.lstsq = orig
+        if any(not np.array_equal(G, G0) for G, G0 in zip(Y, Y0)):
+            # the model function is pure: an implementation that overwrites its argument does not correspond
+            dist['input_modified'] = dist.get('input_modified', 0) + 1
+            impl = ('err', 'func_int_general modified its argument Y')
+            Y = Y0
         for Hc, Mc, Q in rec:
             dist['contract_checked'] += 1
             if Q.shape != (Hc.shape[1], Mc.shape[1]) or np.max(np.abs(Hc @ Q - Mc)) > 1e-8 * max(1, np.max(np.abs(Mc))):
@@ -777,7 +838,12 @@ def chk_general(tn, case):
         Xs = [np.array(p, dtype=float) for p in pts]
         same = case['same_x']
         Y = [np.einsum('rjq,ji->riq', Cc[k], basis(Xs[0] if same else Xs[k])) for k in range(d)]
+        Y0 = [G.copy() for G in Y]
         A = tn.func_int_general(Y, Xs[0] if same else np.array(Xs), basis)
+        if any(not np.array_equal(G, G0) for G, G0 in zip(Y, Y0)):
+            fails.append(dict(what='func_int_general overwrote the data it was given (the fitted interpolant no longer '
+                                   'reproduces the tensor the caller holds)', input=case,
+                              got=[float(np.max(np.abs(G - G0))) for G, G0 in zip(Y, Y0)], expected='input unchanged'))
         if [G.shape for G in A] != [G.shape for G in Cc]:
             fails.append(dict(what='func_int_general: wrong core shapes', input=case, got=[list(G.shape) for G in A],
                               expected=[list(G.shape) for G in Cc]))
